@@ -444,11 +444,13 @@ def judge(ctx, jobs, results, family, strict_periods=False, swallowed=None, repo
         if not all(rd):
             problems.append('range-definite')
         for kind in sorted(set(problems)):
-            sig = '%s:%s' % (kind, dtcorpus.input_key(j[0], j[1]))
+            # input + reference + WHAT failed (the entity and its values); entries recorded under the old key (query hash only)
+            # match as a fallback, narrowed by findings/sets/C11/narrow.json to what was observed on the unchanged tree
+            sig = '%s:%s' % (kind, dtcorpus.input_key2(j[0], j[1], j[2], [e['start'], e['end'], e['type_name'], e['values']]))
             ctx.report('property', sig, '%s %r (reference %s): entity %r type %s values %r violates %s' % (
                 j[0], j[1], j[2], e['text'], e['type_name'], e['values'], kind),
                 failing_input={'culture': j[0], 'query': j[1], 'reference': str(j[2]), 'entity': e, 'violates': kind},
-                property_fails=True)
+                property_fails=True, fallback=('%s:%s' % (kind, dtcorpus.input_key(j[0], j[1])),))
     return len(ents)
 
 
